@@ -5,6 +5,9 @@ import json, subprocess
 HOOK_COMMITS = []  # filled in as hook commits are made in /repo
 
 CHECKS = {
+ "C06": dict(cat="exploration", technique="runtime monitor grouping generated adversarial value corpora by UUID and by accessor-based canonical identity; race detector on concurrent recomputation; digests compared across child processes",
+   text="Sampled adversarial corpora (thousands of values per kind, all pairs decided by grouping), int64/float64 sweeps over every power of two and exponent plus random bit patterns, 16-goroutine recomputation under -race, 3 extra processes; three root causes are recorded as known findings and attributed by a syntactic class of the colliding pair.",
+   note="Trusted: accessors and the canonical projection; 'every process' is observed on 4 processes; byte images are used for attribution of known findings only.", ref="DESIGN.md §5 C06"),
  "C05": dict(cat="exploration", technique="runtime round-trip monitor over generated hostile values and graphs (Parse(String(v)) compared through accessor-based canonical values; WriteGraph->ReadIntoGraph compared as canonical sets)",
    text="Sampled: tens of thousands (quick) to millions (thorough) of generated values inside the documented domain, biased to delimiter-like substrings, extreme numbers, zones and precisions, plus random graphs; held on what was generated, not on all inputs.",
    note="Trusted: accessors of node/predicate/literal/triple, the harness's canonical projection; NaN and CR/LF inside graph files are outside the claim.", ref="DESIGN.md §5 C05"),
